@@ -31,3 +31,9 @@ STR_PREDS = r"""
 """
 STR_PREDS_ASSUMPTION = {"what": "boolean str predicates (starts_with, ends_with, eq_ignore_ascii_case, is_ascii) return an unconstrained bool",
                         "keys": ["fn str_pred_"], "count": 4}
+
+REORDER = r"""
+#[verifier::external_body] pub fn verif_reorder<T>(v: &mut Vec<T>) { unimplemented!() }
+"""
+REORDER_ASSUMPTION = {"what": "in-place sorts / reverse / dedup / retain on a vector are replaced by verif_reorder(): the result is an arbitrary vector",
+                      "keys": ["fn verif_reorder"], "count": 1}
